@@ -59,7 +59,9 @@ Theorem c06_impl_block_header : forall a h t,
   i_self (c06_impl a h t) = impl_path_toks /\
   app_param_toks (i_gen (c06_impl a h t)) = expected_impl_t false /\
   first_where_toks (i_gen (c06_impl a h t)) = c06_bound a (has_async (map snd (trait_sigs t))) (t_name t) (t_gen t) /\
-  i_trait (c06_impl a h t) = Some ([TId (t_name t)] ++ trait_args (t_gen t)).
+  i_trait (c06_impl a h t) = Some ([TId (t_name t)] ++ trait_args (t_gen t)) /\
+  (* the impl declares the trait's lifetimes, then the application, then the trait's other parameters without defaults *)
+  p_items (g_params (i_gen (c06_impl a h t))) = trait_impl_params (p_items (g_params (t_gen t))).
 Proof. exact c06_impl_header. Qed.
 Print Assumptions c06_impl_block_header.
 
